@@ -324,7 +324,7 @@ def conditions(tier):
                                      bounds=f"{engine} output_type={fmt}, lengths {shape}, max_edits={k}"))
         if engine in ("nearest_neighbor", "symdel"):
             for fmt in ("coo_matrix", "ndarray"):
-                for rs, qs in [((2,), (1, 2)), ((2, 1, 1), (2,))]:
+                for rs, qs in [((2,), (1, 2)), ((2, 1, 1), (2,)), ((1, 1), (1, 1, 1))]:      # incl. more queries than references (a wide matrix)
                     out.append(Condition(f"C10/fmt/{engine}/{fmt}/ref={_sh(rs)}/qry={_sh(qs)}/k=1", _body_fmt(engine, rs, qs, 1, fmt),
                                          _replay_fmt(engine, rs, qs, 1, fmt), budget=200, models=MODELS,
                                          bounds=f"{engine} two-collection output_type={fmt}, refs {rs}, queries {qs}"))
